@@ -36,7 +36,8 @@ CONSTANTS N0, N1, N2,      \* lists: longest list whose deepest node has nesting
           Rich,            \* calls: TRUE = the larger value alphabet
           TextLen, Chars,  \* text: longest text, its alphabet (code points)
           IntParts,        \* nums: integer parts combined with every fraction
-          Sample           \* replay: one case in Sample is printed (1 = all)
+          Sample,          \* replay: one case in Sample is printed (1 = all)
+          HiStep           \* numbers: every HiStep-th block of 256 fractions (1 = every 16-bit fraction)
 
 VARIABLE x
 
@@ -205,7 +206,8 @@ InvCommentsAreBlank ==
 (* numbers *)
 \* x = [s, v]: sign and magnitude; a two-level tree so that the workers share the sample
 Num == x.s * x.v
-InitNums == \E ip \in IntParts, hi \in 0..255, sgn \in {1, -1} : x = [s |-> sgn, v |-> ip * Unity + 256 * hi]
+InitNums == \E ip \in IntParts, hi \in {h \in 0..255 : h % HiStep = 0}, sgn \in {1, -1} :
+              x = [s |-> sgn, v |-> ip * Unity + 256 * hi]
 NextNums == x.v % 256 = 0 /\ \E lo \in 1..255 : x' = [x EXCEPT !.v = @ + lo]
 SpecNums == InitNums /\ [][NextNums]_x
 
